@@ -234,6 +234,27 @@ func checkErrDrop(r *Run, p *Prog, rule string, scope func(*FuncNode) bool, min 
 					if stack[k] == loop {
 						break
 					}
+					// a later clause of a tagless switch whose earlier clause is "x == nil"
+					if sw, ok := stack[k].(*ast.SwitchStmt); ok && sw.Tag == nil {
+						sawNil := false
+						for _, cc := range sw.Body.List {
+							clause := cc.(*ast.CaseClause)
+							inClause := false
+							for _, st := range clause.Body {
+								if contains(st, as) {
+									inClause = true
+								}
+							}
+							if inClause && sawNil {
+								known = true
+							}
+							for _, ce := range clause.List {
+								if o, trueMeansNil, isCmp := nilCompare(fn, ce); isCmp && o == ro && trueMeansNil && len(clause.List) == 1 {
+									sawNil = true
+								}
+							}
+						}
+					}
 					if ifs, ok := stack[k].(*ast.IfStmt); ok && contains(ifs.Body, as) {
 						for _, atom := range conjuncts(ifs.Cond) {
 							if o, trueMeansNil, isCmp := nilCompare(fn, atom); isCmp && o == ro && !trueMeansNil {
